@@ -1646,3 +1646,11 @@ package ast
 //@   modifies alloc, map[string]*KnowledgeBase, fresh KnowledgeBase.*, fresh WorkingMemory.*, fresh map[string]*RuleEntry, fresh map[string]*Variable, fresh map[string]*Expression, fresh map[string]*ExpressionAtom, fresh map[*Variable][]*Expression, fresh map[*Variable][]*ExpressionAtom
 //@   ensures found: kbWF(r)
 //@   ensures libkept: libWF(lib)
+
+// ---- JSON fact loader (C20) ----
+//@ func (ctx *DataContext) AddJSON(key, JSON) (err)
+//@   serves C20
+//@   opt alloc=1
+//@   requires ctx != nil && ctx.ObjectStore != nil
+//@   nopanic
+//@   modifies alloc, fresh model.JSONValueNode.*, map[string]model.ValueNode
